@@ -58,6 +58,13 @@ CHECKS = {
             'oracle: fewer bytes accepted than the fault-free output implies non-zero exit and a diagnostic.',
             'Kernel RLIMIT_FSIZE semantics; pipe failures at arbitrary offsets are not injected (only offset 0).',
             'exhaustive fault-point enumeration (write refusal at every output offset) on the real binaries'),
+    'C12': ('exploration', '4 C12',
+            'Every hostile catalogue name (all strings <=3 over {/ . - a 0x01 ~}, hand-picked 7-character names) x every '
+            'directory byte 0x01-0x7F x --dir x destination spelling for extract-files/extract-unused, and every command '
+            '(including failing ones) on valid images of every extension, plain and .gz; full tree snapshot of a sandbox '
+            'before/after each run.',
+            'Snapshot covers the sandbox directory only (image, destination, sibling, canary); libc tmpfile() is outside it.',
+            'bounded-exhaustive enumeration of hostile catalogues with before/after file-tree differencing'),
 }
 
 NA_REASON = 'check not built yet (work in progress; see DESIGN.md section 4)'
